@@ -3,7 +3,9 @@
 
     fusion fuse   dag=<nodes> root=<n> pol=<p> rev=<0|1>     -> "P passes=<k> <plan>"
     fusion passes dag=<nodes> root=<n> pol=<p> rev=<0|1>     -> "N <k>"
-    fusion pass   dag=<nodes> root=<n> pol=<p> rev=<0|1>     -> "G group=.. deps=.. np=.. nd=.." | "G none"
+    fusion pass   dag=<nodes> root=<n> keys=<k0,k1,…>          -> "G group=.. deps=.. np=.. nd=.. done=.." | "G none"
+        (keys[n] = rank of node n's name in string order: the pass iterates `sorted(dependencies[...])`;
+         `pol=<p> rev=<0|1>` instead of keys selects the p-th permutation)
     fusion task   dag=<nodes> node=<n> index=<i>            -> "T <graph>#<args>"
     fusion check  dag=<nodes> node=<n>                       -> OK | FAIL         (fusedOK)
     fusion group  dag=<nodes> root=<n> group=a,b,c           -> OK | FAIL         (groupOKb)
@@ -56,6 +58,22 @@ def rFKey : FKey → String
   | .top n => s!"T{n}"
   | .ph j => s!"_{j}"
 
+/-- insertion sort of `l` by the sort keys `keys[n]` (the rank of the node's name in string order):
+    `sorted(dependencies[next._name])` -/
+def insertByKey (keys : List Nat) (x : Nat) : List Nat → List Nat
+  | [] => [x]
+  | y :: ys => if keys.getD x 0 ≤ keys.getD y 0 then x :: y :: ys else y :: insertByKey keys x ys
+
+def ordByKeys (keys : List Nat) : Nat → List Nat → List Nat := fun _ l => l.foldr (insertByKey keys) []
+
+def ordOf (kv : List (String × String)) : Option (Nat → List Nat → List Nat) :=
+  match getNats kv "keys" with
+  | some keys => some (ordByKeys keys)
+  | none =>
+    match getNat kv "pol", getBool kv "rev" with
+    | some p, some rev => some (fun _ l => permute p rev l)
+    | _, _ => none
+
 def dedupKeys : List FKey → List FKey → List FKey
   | [], acc => acc.reverse
   | k :: ks, acc => if k ∈ acc then dedupKeys ks acc else dedupKeys ks (k :: acc)
@@ -82,17 +100,17 @@ def handle : List String → Option String
           | none => some "FUEL"
         | _, _, _ => some "BAD params"
       | "pass" =>
-        match getNat kv "root", getNat kv "pol", getBool kv "rev" with
-        | some root, some p, some rev =>
-          match fusionPass (fun _ l => permute p rev l) dag root with
+        match getNat kv "root", ordOf kv with
+        | some root, some ord =>
+          match fusionPass ord dag root with
           | some r =>
             match r.group with
             | some g =>
               let f := fusedNode dag g
-              some s!"G group={joinWith "," (g.map toString)} deps={if f.deps.isEmpty then "-" else joinWith "," (f.deps.map toString)} np={f.npart} nd={f.ndim}"
+              some s!"G group={joinWith "," (g.map toString)} deps={if f.deps.isEmpty then "-" else joinWith "," (f.deps.map toString)} np={f.npart} nd={f.ndim} done={bool01 r.done}"
             | none => some "G none"
           | none => some "FUEL"
-        | _, _, _ => some "BAD params"
+        | _, _ => some "BAD params"
       | "task" =>
         match (getNat kv "node").bind (getNode dag), getNat kv "index" with
         | some f, some index =>
